@@ -281,12 +281,42 @@ pub fn witness(name: &str) -> Option<Project> {
             cf("Query", "Home", vec![], vec![Selection::Linked(head("me", vec![]), vec![sc("Card")])]),
             ep("Query", "Home"),
         ]),
+        // a variable at depth 2 of an object argument, used nowhere else in the operation: the query's
+        // variable definitions must come from a recursive walk of object values
+        "nested-object-var" => {
+            let mut p = project(vec![
+                cf(
+                    "Query",
+                    "Home",
+                    vec![("ownerId", named("ID"))],
+                    vec![Selection::Linked(
+                        head("pets", vec![("filter", obj(vec![("owner", obj(vec![("id", Value::var("ownerId"))]))]))]),
+                        vec![sc("name")],
+                    )],
+                ),
+                ep("Query", "Home"),
+            ]);
+            p.schema.types.push(TypeDef {
+                name: "OwnerFilter".into(),
+                description: None,
+                kind: TypeKind::Input { fields: vec![ad("id", named("ID"))] },
+            });
+            p.schema.types.push(TypeDef {
+                name: "PetFilter".into(),
+                description: None,
+                kind: TypeKind::Input { fields: vec![ad("owner", named("OwnerFilter"))] },
+            });
+            if let TypeKind::Object { fields, .. } = &mut p.schema.types[0].kind {
+                fields.push(fd("pets", vec![ad("filter", named("PetFilter"))], named("User").non_null().list()));
+            }
+            p
+        }
         _ => return None,
     })
 }
 
 pub const NAMES: &[&str] =
-    &["plain", "f12", "f12b", "f13", "f11neg", "f11collide", "f18", "f18sorted", "reuse", "nonnull-list-var", "pointer-var", "var-default", "abstract-loadable", "suffix-paths"];
+    &["plain", "f12", "f12b", "f13", "f11neg", "f11collide", "f18", "f18sorted", "reuse", "nonnull-list-var", "pointer-var", "var-default", "abstract-loadable", "suffix-paths", "nested-object-var"];
 
 pub fn main(args: &[String]) {
     let name = args.first().map(|s| s.as_str()).unwrap_or("");
